@@ -163,6 +163,11 @@ def extract(repo="/repo", config="default", force=False, log=sys.stderr):
         print("[wxverif] extracting facts (%s) from %s ..." % (config, repo), file=log)
         r = subprocess.run(["cargo", "+nightly", "check", "--offline"] + args, cwd=repo, env=env,
                            stdout=subprocess.PIPE, stderr=subprocess.STDOUT, text=True)
+        if r.returncode != 0 and "error[E" not in r.stdout and "error: could not compile" not in r.stdout:
+            # not a compile error of the tree (e.g. the compiler was killed under memory pressure): try once more
+            time.sleep(3)
+            r = subprocess.run(["cargo", "+nightly", "check", "--offline"] + args, cwd=repo, env=env,
+                               stdout=subprocess.PIPE, stderr=subprocess.STDOUT, text=True)
         if r.returncode != 0:
             shutil.rmtree(out, ignore_errors=True)
             raise ExtractError("cargo check failed on %s (does the tree compile?):\n%s" % (repo, r.stdout[-6000:]))
